@@ -399,3 +399,37 @@ def find_loops(st: List[Tok], lo: int, hi: int) -> List[Loop]:
             out.append(Loop(i, t.text, in_kw, j, match_close(st, j)))
         i += 1
     return out
+
+
+def param_names(st: List[Tok], fp: "FnParts") -> List[Optional[str]]:
+    """names of the parameters of a fn (None for self / non-identifier patterns), in order"""
+    out: List[Optional[str]] = []
+    i = fp.params_open + 1
+    while i < fp.params_close:
+        # one parameter: tokens up to the next depth-0 comma
+        j = i; depth = 0
+        while j < fp.params_close and not (st[j].text == "," and depth == 0):
+            if st[j].text in ("(", "[", "{", "<"): depth += 1
+            elif st[j].text in (")", "]", "}", ">"): depth -= 1
+            j += 1
+        toks = st[i:j]
+        k = 0
+        while k < len(toks) and toks[k].text in ("mut", "&", "ref"): k += 1
+        if k + 1 < len(toks) and toks[k].kind == "ident" and toks[k + 1].text == ":" and toks[k].text != "self":
+            out.append(toks[k].text)
+        elif toks:
+            out.append(None)
+        i = j + 1
+    return out
+
+
+def rename_idents(text: str, ren: dict) -> str:
+    """token-level identifier substitution in spec text (not after `.` or `::`, i.e. never a field or path segment)"""
+    toks = tokenize(text)
+    sig_ = [t for t in toks if t.kind not in ("ws", "comment")]
+    out = []; pos = 0
+    for n, t in enumerate(sig_):
+        if t.kind == "ident" and t.text in ren and not (n > 0 and sig_[n - 1].text in (".", "::")) and not (n + 1 < len(sig_) and sig_[n + 1].text == "::"):
+            out.append(text[pos:t.start]); out.append(ren[t.text]); pos = t.end
+    out.append(text[pos:])
+    return "".join(out)
